@@ -370,4 +370,6 @@ def inexact(txns):
     return False
 
 
+import deccontract  # noqa: E402
+deccontract.install(C06, ["div", "show", "parse"])
 PROP = C06()
